@@ -125,6 +125,8 @@ def build_hosted(states, slots, grain=8, ngte=512, capacity=None, window_at=0, t
     order = list(used_tables)
     if gt_order == "desc":
         order = order[::-1]
+    elif gt_order == "mid":  # first and last table where they usually are, the ones in between in reverse order
+        order = order[:1] + order[1:-1][::-1] + order[-1:]
     gt_sector = {t: gt0 + order.index(t) * gt_sectors for t in used_tables}
     # --- grains ----------------------------------------------------------------------------------------------
     ent = {}
@@ -272,6 +274,8 @@ def build_sesparse(states, slots, grain=8, gt_sectors=64, capacity=None, window_
     order = list(used_tables)
     if gt_order == "desc":
         order = order[::-1]
+    elif gt_order == "mid":
+        order = order[:1] + order[1:-1][::-1] + order[-1:]
     tindex = {t: order.index(t) for t in used_tables}  # physical table index named by the GD entry
     grains_off = (gt_off + max(1, len(used_tables)) * gt_sectors + 8 + grain - 1) // grain * grain
     used = {p for _i, st, p in entries(states, slots) if st == DATA}
